@@ -41,6 +41,16 @@ type Case struct {
 	RealClock bool   `json:"real_clock,omitempty"`
 	// additional validator / gateway-load runs (verdicts that depend on map iteration order)
 	Repeat int `json:"repeat,omitempty"`
+	// degenerate-file streams: files of the path_params directory, additional
+	// processor-definition files, "the gateway configuration file is written even if empty"
+	PathParams     map[string]string `json:"path_param_files,omitempty"`
+	ProcDefs       map[string]string `json:"processor_definition_files,omitempty"`
+	GatewayPresent bool              `json:"gateway_config_present,omitempty"`
+	// suite `files`: where the degenerate file sits, its shape, what the other files were rendered from
+	DocWhere    string            `json:"docless_where,omitempty"`
+	DocShape    *shape            `json:"docless_shape,omitempty"`
+	DocModelled bool              `json:"docless_modelled,omitempty"`
+	DocRendered map[string]string `json:"docless_rendered,omitempty"`
 }
 
 type LoadObs struct {
@@ -262,12 +272,17 @@ type RawItem struct {
 	// zoo only
 	Gateway   string
 	RealClock bool
+	// degenerate-file streams (docless.go)
+	PathParams     map[string]string
+	ProcDefs       map[string]string
+	GatewayPresent bool
 }
 
 func runRaw(o *c.Out, items []RawItem) map[int]*JobResult {
 	jobs := make([]Job, len(items))
 	for i, it := range items {
-		jobs[i] = Job{ID: i, Flows: it.Flows, Quotas: it.Quotas, Txns: it.Txns, Gateway: it.Gateway, RealClock: it.RealClock}
+		jobs[i] = Job{ID: i, Flows: it.Flows, Quotas: it.Quotas, Txns: it.Txns, Gateway: it.Gateway, RealClock: it.RealClock,
+			PathParams: it.PathParams, ProcDefs: it.ProcDefs, GatewayPresent: it.GatewayPresent}
 	}
 	res := runJobs(jobs)
 	for i := range items {
@@ -275,7 +290,8 @@ func runRaw(o *c.Out, items []RawItem) map[int]*JobResult {
 		r := res[i]
 		lo := loadObs(r)
 		dump(it.Label, r)
-		k := Case{Kind: it.Kind, Label: it.Label, Flows: it.Flows, Quotas: it.Quotas, Load: lo, Gateway: it.Gateway, RealClock: it.RealClock}
+		k := Case{Kind: it.Kind, Label: it.Label, Flows: it.Flows, Quotas: it.Quotas, Load: lo, Gateway: it.Gateway, RealClock: it.RealClock,
+			PathParams: it.PathParams, ProcDefs: it.ProcDefs, GatewayPresent: it.GatewayPresent}
 		o.Case0(k, r.Accepted)
 		o.Count(it.Kind + ":verdict=" + r.LoadStatus)
 		o.MonitorChecked(1)
@@ -292,7 +308,7 @@ func runRaw(o *c.Out, items []RawItem) map[int]*JobResult {
 				continue
 			}
 			tk := Case{Kind: it.Kind, Label: it.Label, Flows: it.Flows, Quotas: it.Quotas, Txn: &it.Txns[ti], Load: lo, Result: tr,
-				Gateway: it.Gateway, RealClock: it.RealClock}
+				Gateway: it.Gateway, RealClock: it.RealClock, PathParams: it.PathParams, ProcDefs: it.ProcDefs, GatewayPresent: it.GatewayPresent}
 			o.Case0(tk, len(tr.Events) > 0)
 			o.Count(it.Kind + ":txn-outcome=" + tr.Outcome)
 			o.MonitorChecked(1)
@@ -322,6 +338,11 @@ func main() {
 	o.ShardSize = 200
 	o.DeclareSuite("load", "From Verif Require Import C05.Model.", "case_load", "run_load")
 	o.DeclareSuite("txn", "From Verif Require Import C05.Model.", "case_txn", "run_txn")
+	filesRun := "run_files"
+	if os.Getenv("C05_FILES_VARIANT") == "nil" { // one-off validation of the scanner against the seeded decoder (notes/C05.md)
+		filesRun = "run_files_nil"
+	}
+	o.DeclareSuite("files", "From Verif Require Import C05.Model C05.Decode.", "case_files", filesRun)
 	o.Rule("hand-written witnesses of the known defect classes; every single-defect variant of a good flow (structure, " +
 		"stream/flow/processor ends, conditions, dangling processor / flow references, processor types and parameters, " +
 		"roots, unconnected processors, duplicate connections, cycles in either direction, self references); stale foreign " +
@@ -336,9 +357,12 @@ func main() {
 		"source; k = 1 complete, k = 2 complete in the thorough tier and every 3rd in the quick one, k = 3 a random sample); flow-reference graphs over 1-3 flows (every subset of reference edges incl. self / mutual / long cycles, " +
 		"three kinds of reference); random configurations of 1-3 flows with <= 4 Filters each over the whole connection " +
 		"vocabulary; each accepted configuration run on every assignment of the Filter outcomes (all header subsets when " +
-		"<= 16, else a sample with both extremes) as request and as response.  distinct = distinct (configuration, observed " +
+		"<= 16, else a sample with both extremes) as request and as response; degenerate files (83 fixed lexical shapes: no " +
+		"document, null document, {}, [], scalars, markers, BOMs, tabs, control bytes; 13 two-document shapes; random compositions " +
+		"of 1-4 degenerate lines; null-valued keys) as the only / an additional file of flows/, quotas/, path_params/, the processor " +
+		"definitions and as gateway configuration file, the lexical ones through the model's scanner and file loader (suite files).  distinct = distinct (configuration, observed " +
 		"verdict) resp. (configuration, selection, headers, observed events); non-trivial = load: accepted or rejected by " +
-		"the graph stage; txn: >= 2 processors ran or the hand-over continuation ran")
+		"the graph stage; txn: >= 2 processors ran or the hand-over continuation ran; files: a non-empty file the scanner decides")
 
 	var k Case
 	if _, ok := o.ReplayCase(&k); ok {
@@ -437,6 +461,10 @@ func main() {
 	// 6. quota files and malformed traffic (monitor only)
 	runRaw(o, quotaItems())
 	runRaw(o, rawFlowItems())
+	// 6b. degenerate files (no document, null document, {}, [], scalars, several documents, BOM, tabs, null keys)
+	// in flows/, quotas/, path_params/, the processor definitions and the gateway configuration file;
+	// the lexical shapes go through the model's scanner and file loader as well (suite `files`)
+	runDocless(o, doclessItems(r.Fork(97), o.Scale(120, 1500, 400)))
 	runRaw(o, trafficItems(r.Fork(99), o.Scale(60, 400, 200)))
 
 	// 7. processor zoo (monitor only) + its coverage
@@ -482,8 +510,21 @@ func replay(o *c.Out, k *Case) {
 			it.Txns = []Txn{*k.Txn}
 		}
 		runItems(o, []Item{it})
+	case "docless":
+		sh := shape{Name: "replayed"}
+		if k.DocShape != nil {
+			sh = *k.DocShape
+		}
+		di := DocItem{RawItem: RawItem{Kind: k.Kind, Label: k.Label, Flows: k.Flows, Quotas: k.Quotas, Gateway: k.Gateway,
+			PathParams: k.PathParams, ProcDefs: k.ProcDefs, GatewayPresent: k.GatewayPresent},
+			Where: k.DocWhere, Shape: sh, Modelled: k.DocModelled, Rendered: k.DocRendered}
+		if k.Txn != nil {
+			di.Txns = []Txn{*k.Txn}
+		}
+		runDocless(o, []DocItem{di})
 	default:
-		ri := RawItem{Kind: k.Kind, Label: k.Label, Flows: k.Flows, Quotas: k.Quotas, Gateway: k.Gateway, RealClock: k.RealClock}
+		ri := RawItem{Kind: k.Kind, Label: k.Label, Flows: k.Flows, Quotas: k.Quotas, Gateway: k.Gateway, RealClock: k.RealClock,
+			PathParams: k.PathParams, ProcDefs: k.ProcDefs, GatewayPresent: k.GatewayPresent}
 		if k.Txn != nil {
 			ri.Txns = []Txn{*k.Txn}
 		}
